@@ -550,6 +550,18 @@ class Exec:
             s.decisions.append(d); s.dpos += 1
         s.solver.add(c if d else z3.Not(c)); s.pc.append(c if d else z3.Not(c))
         return d
+    def concretize(s, v):
+        """if the path condition (plus axioms) allows exactly one value for the bit-vector v, return it as a python int"""
+        k = v.get_id(); memo = s.__dict__.setdefault('conc_memo', {})
+        if k in memo: return memo[k][0]
+        s.flush_axioms(); res = v
+        s.solver.push(); r = zcheck(s.solver, 5000)
+        if r == z3.sat:
+            v0 = s.solver.model().eval(v, model_completion=True); s.solver.pop()
+            if z3.is_bv_value(v0) and not s.feasible(v != v0): res = v0.as_long()
+        else: s.solver.pop()
+        memo[k] = (res, v)
+        return res
     def assume(s, c):
         if isinstance(c, (bool, int)):
             if not c: raise Abort('assume(false)')
@@ -596,6 +608,8 @@ def run_function(E, fname, args, depth=0):
                     off += m.field_off(t, iv); t = t.els[iv]; continue
                 elif isinstance(t, ArrT): stride = m.size(t.el); t = t.el
                 else: raise Unsupported('gep into %r' % t)
+            if not isinstance(iv, int) and E.solver is not None and z3.is_bv(iv):
+                iv = E.concretize(iv)          # a symbolic index that the path condition pins to ONE value is used as that value
             if isinstance(iv, int):
                 bits = m.resolve(it).bits if it is not None else 64
                 off += E.sgn(iv, bits) * stride
@@ -1049,6 +1063,24 @@ def check_obligations(E, extra_assume=None):
     """decide every obligation recorded on this path: returns list of (name, verdict, model_or_None)"""
     out = []; n_unknown = 0
     E.flush_axioms()
+    # fast path: decide the conjunction of all obligations of this path in ONE query; only if that fails are they decided one by one
+    sym = []
+    for name, c in E.obligations:
+        if isinstance(c, bool) or (isinstance(c, int) and not z3.is_expr(c)):
+            if not c: sym = None; break
+            continue
+        cc = z3.simplify(E.tobool(c))
+        if z3.is_false(cc): sym = None; break
+        if not z3.is_true(cc): sym.append(cc)
+    if sym is not None and len(sym) > 3:
+        t0 = time.time()
+        E.solver.push(); E.solver.add(z3.Not(z3.And(sym)))
+        if extra_assume is not None: E.solver.add(extra_assume)
+        r = zcheck(E.solver, E.solver_timeout_ms); E.nqueries = getattr(E, 'nqueries', 0) + 1
+        E.solver.pop()
+        if r == z3.unsat:
+            dt = (time.time() - t0) / max(len(E.obligations), 1)
+            return [(name, 'discharged', None, dt) for name, c in E.obligations]
     for name, c in E.obligations:
         if n_unknown >= 3:
             # the solver is not getting anywhere on this path: do not burn the full timeout on every remaining obligation
